@@ -21,6 +21,7 @@ def check(chk):
     chk.rule('C33.alias', 'no two containers share one backing list: `<x>._items = <y>._items` only moves the list out of a temporary created in the same function; copies go through list(...)')
     m = chk.repo.mod(UTIL)
     _alias_rule(chk, m)
+    _order_rule(chk, m)
     # an element may itself be a tuple: '%r' % element would take it as the argument list
     chk.rule('C33.fmt', 'SortedSet / OrderedMap: a %-format whose right operand is an element / key name wraps it in a tuple')
     nf = 0
@@ -145,6 +146,30 @@ def check(chk):
               'another map\'s %s is copied (%s): a map decoded from a column keys its index by CQL encoding, a plain OrderedMap by pickle, so the copy looks keys up in the wrong key space'
               % (sorted(set(a.attr for a in foreign)), [src(a) for a in foreign][:2]))
 
+
+
+def _order_rule(chk, util):
+    """inclusion is a partial order: each of the four rich comparisons is spelled out; deriving them from one another (functools.total_ordering: a > b
+    == not a <= b) is wrong for incomparable sets"""
+    chk.rule('C33.order', 'SortedSet defines __le__ / __lt__ / __ge__ / __gt__ itself: <= issubset, >= issuperset, < and > additionally compare the sizes; no total_ordering')
+    cls = util.cls('SortedSet')
+    decos = [src(d) for d in cls.decorator_list]
+    defs = dict((st.name, st) for st in cls.body if isinstance(st, ast.FunctionDef))
+    missing = [n for n in ('__le__', '__lt__', '__ge__', '__gt__') if n not in defs]
+    chk.judge(not missing and not any('total_ordering' in d for d in decos), 'C33.order', cls, 'all four inclusion comparisons are defined explicitly',
+              'comparisons %s are not defined%s: for two sets neither of which contains the other a derived `a > b` / `a >= b` answers True' %
+              (missing, ' and the class is decorated with total_ordering' if any('total_ordering' in d for d in decos) else ''))
+    want = {'__le__': ('issubset', False), '__ge__': ('issuperset', False), '__lt__': ('issubset', True), '__gt__': ('issuperset', True)}
+    for name, (meth, strict) in want.items():
+        f = defs.get(name)
+        if f is None:
+            continue
+        rets = [r for r in body_walk(f) if isinstance(r, ast.Return) and r.value is not None]
+        txt = ' '.join(src(r.value) for r in rets)
+        uses = ('self.%s(other)' % meth) in txt
+        sized = any(isinstance(x, ast.Compare) and 'len(' in src(x) for r in rets for x in ast.walk(r.value))
+        chk.judge(uses and (sized or not strict), 'C33.order', f, 'SortedSet.%s: %s%s' % (name, meth, ' and a size comparison' if strict else ''),
+                  'SortedSet.%s no longer tests inclusion with %s%s' % (name, meth, ' plus a strict size comparison' if strict else ''))
 
 
 def _alias_rule(chk, util):
